@@ -16,7 +16,7 @@ def sh(cmd, **kw):
     return subprocess.run(cmd, shell=True, stdout=subprocess.PIPE, stderr=subprocess.STDOUT, text=True, **kw)
 
 
-def run_one(name, tier, demo):
+def run_one(name, tier, demo, suite=False):
     d = os.path.join(SEEDED, name)
     meta = json.load(open(os.path.join(d, 'meta.json')))
     pid = meta['property']
@@ -52,6 +52,15 @@ def run_one(name, tier, demo):
                 sh(f'git -C {wt} checkout -- .')
                 without = sh(cmd, cwd=wt, env=dict(os.environ, PYTHONPATH=f'{wt}/src'))
                 res['demo'] = dict(with_patch_rc=with_p.returncode, without_patch_rc=without.returncode)
+        if suite:
+            # own confirmation that the repository's suite still passes with the change (private network
+            # namespace: the e2e tests bind fixed ports)
+            sh(f'git -C {wt} checkout -- . && git -C {wt} apply {os.path.join(d, "patch.diff")}')
+            r = sh(f"unshare -rn sh -c 'ip link set lo up; cd {wt}; PYTHONPATH={wt}/src /venv/bin/python -m pytest -q "
+                   f"-p no:cacheprovider --timeout=900 2>&1 | tail -3'")
+            last = [l for l in r.stdout.splitlines() if ' passed' in l or ' failed' in l or 'error' in l.lower()]
+            res['suite'] = dict(summary=(last[-1] if last else r.stdout[-200:]).strip(),
+                                passed=bool(last) and ' failed' not in last[-1] and 'error' not in last[-1].lower())
         res['detected'] = any(res.get(t, {}).get('rc') == 1 for t in ('quick', 'thorough'))
         return res
     finally:
@@ -65,10 +74,11 @@ if __name__ == '__main__':
     ap = argparse.ArgumentParser()
     ap.add_argument('--tier', default='both')
     ap.add_argument('--demo', action='store_true')
+    ap.add_argument('--suite', action='store_true')
     ap.add_argument('names', nargs='*')
     a = ap.parse_args()
     names = a.names or sorted(n for n in os.listdir(SEEDED) if os.path.exists(os.path.join(SEEDED, n, 'meta.json')))
     for n in names:
-        res = run_one(n, a.tier, a.demo)
+        res = run_one(n, a.tier, a.demo, a.suite)
         json.dump(res, open(os.path.join(SEEDED, n, 'result.json'), 'w'), indent=1)
         print(n, json.dumps({k: v for k, v in res.items() if k != 'head'}))
